@@ -527,7 +527,7 @@ fn run_in_child(out: &str, reqs: &[String]) -> Vec<(String, Option<String>)> {
 
 const TOKENS: &[&str] = &[
     "/", "/", "//", ".", "..", "...", "a", "b.data", "model.onnx_data", "w.onnx_data_1", ".data", "data",
-    "x.txt", "x.datax", "x.dat", "x.Data", "x.DATA", "x.onnx", "x.onnx_dat", "\\", "..\\", "C:\\", "C:", "é",
+    "x.txt", "x.datax", "x.mydata", "x.metadata", "x.dat", "x.Data", "x.DATA", "x.onnx", "x.onnx_dat", "\\", "..\\", "C:\\", "C:", "é",
     "日本.data", "\u{0}", " ", "..data", "a.", "a..data", "%2e%2e", "\u{202e}", "\n", "\t", "~", "x.data.bak",
     "x.bak.data", ".onnx_data", "\u{2215}", "\u{ff0f}", "\u{2024}", "secret.txt", "sub", "inner.data", "outside.data",
 ];
